@@ -119,6 +119,8 @@ def real_decode(line):
         m = Message(line)
     except ValueError:
         return "err"
+    except Exception as exc:  # noqa: BLE001  decoding may refuse a line with ValueError, nothing else
+        return "raised-" + type(exc).__name__
     return f"ok {m.node_id} {m.child_id} {m.type} {m.ack} {m.sub_type} {enc_str(m.payload)}"
 
 
@@ -126,7 +128,10 @@ def real_encode(fields, payload):
     from mysensors.message import Message
     m = Message(node_id=fields[0], child_id=fields[1], type=fields[2], ack=fields[3],
                 sub_type=fields[4], payload=payload)
-    out = m.encode()
+    try:
+        out = m.encode()
+    except Exception as exc:  # noqa: BLE001  encode reports an unusable field by returning None
+        return "raised-" + type(exc).__name__
     return "none" if out is None else "ok " + enc_str(out)
 
 
@@ -142,6 +147,8 @@ def real_copy(fields, payload, kw):
         c = m.copy(**kw)
     except ValueError:
         return "raised"
+    except Exception as exc:  # noqa: BLE001
+        return "raised-" + type(exc).__name__
     return f"ok {dec(c.node_id)} {dec(c.child_id)} {dec(c.type)} {dec(c.ack)} {dec(c.sub_type)} {enc_str(c.payload)}"
 
 
@@ -158,15 +165,18 @@ def oracle_roundtrip(fields, payload):
     from mysensors.message import Message
     m = Message(node_id=fields[0], child_id=fields[1], type=fields[2], ack=fields[3],
                 sub_type=fields[4], payload=payload)
-    line = m.encode()
+    try:
+        line = m.encode()
+    except Exception as exc:  # noqa: BLE001
+        return f"encode raised {type(exc).__name__}"
     if line is None:
         return None if not all(within_limit(f) for f in fields) else "encode returned None"
     if not carryable(payload):
         return None
     try:
         d = Message(line)
-    except ValueError:
-        return "decode(encode(m)) raised"
+    except Exception as exc:  # noqa: BLE001
+        return f"decode(encode(m)) raised {type(exc).__name__}"
     got = [d.node_id, d.child_id, d.type, d.ack, d.sub_type, d.payload]
     if got != list(fields) + [payload]:
         return "decode(encode(m)) = " + repr([x if isinstance(x, str) else dec(x)[:40] for x in got])
@@ -181,7 +191,12 @@ def oracle_canonical(line):
         m = Message(line)
     except ValueError:
         return None
-    c = m.encode()
+    except Exception as exc:  # noqa: BLE001
+        return f"decoding raised {type(exc).__name__}, not ValueError"
+    try:
+        c = m.encode()
+    except Exception as exc:  # noqa: BLE001
+        return f"re-encode of an accepted line raised {type(exc).__name__}"
     if c is None:
         return "re-encode of an accepted line returned None"
     want = ";".join([str(m.node_id), str(m.child_id), str(m.type), str(m.ack), str(m.sub_type),
@@ -190,7 +205,7 @@ def oracle_canonical(line):
         return "re-encoded line is not the canonical line"
     try:
         m2 = Message(c)
-    except ValueError:
+    except Exception:  # noqa: BLE001
         return "canonical line does not decode"
     if (m2.node_id, m2.child_id, m2.type, m2.ack, m2.sub_type, m2.payload) != \
             (m.node_id, m.child_id, m.type, m.ack, m.sub_type, m.payload):
@@ -208,8 +223,8 @@ def oracle_copy(fields, payload, kw):
                 sub_type=fields[4], payload=payload)
     try:
         c = m.copy(**kw)
-    except ValueError:
-        return "copy raised"
+    except Exception as exc:  # noqa: BLE001
+        return f"copy raised {type(exc).__name__}"
     want = dict(zip(KW_NAMES, list(fields) + [payload]))
     want.update(kw)
     got = {k: getattr(c, k) for k in KW_NAMES}
